@@ -151,6 +151,19 @@ def composition(crate, v, rule, is_F, wrapper_suffix, extra_ok=(), f_is_poll=Fal
                 unknown.append((x, bb, nm))
             else:
                 foreign.append((x, bb, nm))
+    # functions handed to combinators as values (`.map_err(actix_web::error::ErrorBadRequest)`) are called just the same
+    for x in views:
+        for bb in sorted(x.reach):
+            tm = x.blocks[bb]["term"]
+            if tm["k"] != "call":
+                continue
+            for a in tm["args"]:
+                if a["k"] == "const" and isinstance(a.get("fn"), dict):
+                    fd = a["fn"]
+                    nm = erase_generics(fd.get("path") or fd.get("full") or "")
+                    if fd.get("krate") in ("std", "core", "alloc", "deserr", crate.name) or nm in STD_OK or nm in extra_ok or nm in PLUMBING:
+                        continue
+                    foreign.append((x, bb, nm + " (as a function value)"))
     for x, bb, nm in foreign:
         fs.append(fnd(rule, x, "the extractor does something besides extracting, deserialising and wrapping: call of %s" % nm, bb))
     if len(F) != 1 or len(D) != 1:
